@@ -20,6 +20,8 @@ PROVED here, for every text and every token list (not only those CPython's token
                                                                                C13_pass_pass_idempotent)
   * still open (finding F20): `suppress_main_guard` deletes everything from the guard to the end of the
     text                                        (C13_main_guard_partial, C13_main_guard_counterexample)
+  * still open (finding F25): a backslash-continued line that starts at column 0 is glued to the
+    previous token                    (C13_rows_not_glued_partial, C13_rows_not_glued_counterexample)
 
 NOT provable here (CPython's tokenizer and parser are outside the model) — exercised only by
 harness/c13.py: the result is valid Python with the same AST modulo the four kinds of noise, invariance
@@ -275,6 +277,38 @@ theorem C13_main_guard_counterexample : ¬ C13_main_guard := by
   have := hl "x = 2".toList (by decide)
   revert this
   decide
+
+/-! ## Explicit line joining (finding F25, open) -/
+
+/-- What the tree-preservation clause needs from the padding: two word tokens standing on different
+rows of the source (a backslash continuation: there is no NEWLINE / NL token between them) are kept
+apart in the output. -/
+def C13_rows_not_glued : Prop :=
+  ∀ (st : LoopState) (t : Token) (nx : Option Kind),
+    t.kind = .other → t.srow > st.perow → 0 < (step st t nx).2.pad
+
+/-- **C13 (rows not glued), partial.** Hypothesis = complement of finding 25's input class: the
+continuation line does not start at column 0. -/
+theorem C13_rows_not_glued_partial (st : LoopState) (t : Token) (nx : Option Kind)
+    (hk : t.kind = .other) (hr : t.srow > st.perow) (hc : 0 < t.scol) : 0 < (step st t nx).2.pad := by
+  unfold step
+  simp only [hk, hr, if_true]
+  have : (t.scol - 0).toNat = t.scol.toNat := by simp
+  simp [this]
+  omega
+
+example : (0 : Int) < (⟨.other, "done".toList, 2, 8, 2, 12⟩ : Token).scol := by decide
+
+/-- **Finding 25 at model level.** `else \` / `second`: the second line starts at column 0, no
+padding is emitted, the output reads `elsesecond`. -/
+theorem C13_rows_not_glued_counterexample : ¬ C13_rows_not_glued := by
+  intro h
+  have := h ⟨.other, 1, 22⟩ ⟨.other, "second".toList, 2, 0, 2, 6⟩ (some .newline) rfl (by decide)
+  revert this
+  decide
+
+example : loopText [⟨.other, "else".toList, 1, 0, 1, 4⟩, ⟨.other, "second".toList, 2, 0, 2, 6⟩] =
+    "elsesecond".toList := by decide
 
 /-! ## The two final text passes -/
 
